@@ -436,6 +436,89 @@ func shortS(s string) string {
 }
 
 // ---------------------------------------------------------------------------------------------
+// A2: many distinct signatures through the wallet's real signing path, so that every encoding
+// case of (r, s) occurs: r or s shorter than 32 bytes (leading zero byte, probability 2^-8 each)
+// must still be laid out right-aligned and verify. Rounds of 4096 distinct transactions (lock
+// time = counter, 4 keys) signed by account.SignStandardTransaction, plus 4096 distinct raw
+// messages signed by Account.Sign, until short-r and short-s have each been produced >= 4 times
+// on the transaction path (hard cap on rounds). Each signature is checked by
+// blockchain.RunPrograms / crypto.Verify and by the independent verifier.
+
+type sigStats struct {
+	txSigs, rawSigs, shortR, shortS, shortRraw, shortSraw int64
+}
+
+func (c *checker) partA2() sigStats {
+	var st sigStats
+	to := common.Uint168(keys.ProgramHash(keys.PrefixStandard, keys.StandardCode(keys.Pub(9))))
+	const perRound = 4096
+	maxRounds := c.r.Pick(12, 64)
+	for round := 0; round < maxRounds; round++ {
+		par.Go(64, func(shard int) {
+			for i := shard; i < perRound; i += 64 {
+				ctr := uint32(round*perRound + i)
+				k := i % 4
+				a := acct(k)
+				// transaction path
+				var id common.Uint256
+				id[0], id[1], id[2], id[3] = byte(ctr), byte(ctr>>8), byte(ctr>>16), 0xA2
+				tx := transaction.CreateTransaction(ctypes.TxVersion09, ctypes.TransferAsset, 0, &payload.TransferAsset{},
+					[]*ctypes.Attribute{{Usage: ctypes.Nonce, Data: []byte{byte(ctr), byte(ctr >> 8)}}},
+					[]*ctypes.Input{{Previous: ctypes.OutPoint{TxID: id, Index: uint16(ctr)}, Sequence: ctr}},
+					[]*ctypes.Output{{AssetID: core.ELAAssetID, Value: common.Fixed64(ctr) + 1, ProgramHash: to, Type: ctypes.OTNone, Payload: &outputpayload.DefaultOutput{}}},
+					ctr, nil)
+				var sp *pg.Program
+				err, pan := guardErr(func() (e error) {
+					sp, e = account.SignStandardTransaction(tx, &pg.Program{Code: a.RedeemScript}, walletOf(k))
+					return
+				})
+				if err != nil || pan != "" || sp == nil {
+					c.r.Violate("C37|wallet-sign-failed|standard", "the wallet cannot sign for its own standard account", map[string]interface{}{"kind": "sign", "error": fmt.Sprint(err, pan)})
+					continue
+				}
+				atomic.AddInt64(&st.txSigs, 1)
+				if len(sp.Parameter) == 65 {
+					if sp.Parameter[1] == 0 {
+						atomic.AddInt64(&st.shortR, 1)
+					}
+					if sp.Parameter[33] == 0 {
+						atomic.AddInt64(&st.shortS, 1)
+					}
+				}
+				c.verify(signedCase{"standard", fmt.Sprintf("many-signatures key=%d counter=%d", k, ctr), a.ProgramHash, sp, unsigned(tx), 0}, true)
+				// raw message path: Account.Sign -> crypto.Sign, checked by crypto.Verify + reference
+				msg := []byte(fmt.Sprintf("verif C37 message %d / key %d / %s", ctr, k, strings.Repeat("x", int(ctr%97))))
+				var sig []byte
+				err, pan = guardErr(func() (e error) { sig, e = a.Sign(msg); return })
+				if err != nil || pan != "" {
+					c.r.Violate("C37|wallet-sign-failed|raw", "Account.Sign fails", map[string]interface{}{"kind": "sign", "error": fmt.Sprint(err, pan)})
+					continue
+				}
+				atomic.AddInt64(&st.rawSigs, 1)
+				if len(sig) == 64 {
+					if sig[0] == 0 {
+						atomic.AddInt64(&st.shortRraw, 1)
+					}
+					if sig[32] == 0 {
+						atomic.AddInt64(&st.shortSraw, 1)
+					}
+				}
+				verr, vpan := guardErr(func() error { return crypto.Verify(*a.PublicKey, msg, sig) })
+				ref := keys.VerifyECDSA(keys.Pub(k), msg, sig)
+				if verr != nil || vpan != "" || !ref {
+					c.r.Violate("C37|wallet-signature-rejected|raw", "a signature produced by Account.Sign does not verify (crypto.Verify / independent verifier)",
+						map[string]interface{}{"kind": "rawsig", "key": k, "msg": hex.EncodeToString(msg), "sig": hex.EncodeToString(sig), "node_error": fmt.Sprint(verr, vpan), "reference_valid": ref})
+				}
+			}
+		})
+		if (st.shortR >= 4 && st.shortS >= 4) || c.r.NumViolations() > 0 {
+			break // enough encodings seen, or a violation already decides the run
+		}
+	}
+	return st
+}
+
+// ---------------------------------------------------------------------------------------------
 // B: addresses
 
 const b58 = "123456789ABCDEFGHJKLMNPQRSTUVWXYZabcdefghijkmnopqrstuvwxyz"
@@ -650,6 +733,11 @@ func main() {
 		return
 	}
 	c.partA()
+	st := c.partA2()
+	if (st.shortR < 4 || st.shortS < 4) && r.NumViolations() == 0 {
+		os.Stdout = stdout
+		evid.Fatalf("many-signatures family did not produce enough short r/s encodings (short r %d, short s %d in %d signatures) — vacuous", st.shortR, st.shortS, st.txSigs)
+	}
 	c.partB()
 	c.partC()
 	os.Stdout = stdout
@@ -660,12 +748,17 @@ func main() {
 		"the wallet cannot sign for a 1-of-1 multisig account it creates (GetSigners needs a script of >= 71 bytes); no signature is produced, so the property makes no claim — recorded under outcome classes",
 		"keystore files, password handling and key generation are C38's subject")
 	r.Finish(evid.Coverage{
-		"evaluations":         c.ct.verified + c.ct.undersigned + c.ct.mutations + c.ct.addr + c.ct.addrTamper + c.ct.amounts,
+		"evaluations":         st.rawSigs + c.ct.verified + c.ct.undersigned + c.ct.mutations + c.ct.addr + c.ct.addrTamper + c.ct.amounts,
 		"distinct_nontrivial": c.ct.verified + c.ct.mutRejected + c.ct.addr + c.ct.amountsOK,
 		"rule": "A: standard (4 keys), multisig 1<=m<=n<=4 x every non-empty signer subset x every signing order (chained single-key wallets) + SignMultiSignTransactionByM, Schnorr over every non-empty subset of 4 keys; 3 transaction shapes; RunPrograms must accept (>= m signers) / reject (< m); every single-byte substitution (16-value alphabet) of the signed bytes of the canonical flows must be rejected. " +
+			"A2: rounds of 4096 distinct transactions (4 keys, counter in lock time/input/output/attribute) through SignStandardTransaction + RunPrograms, and 4096 distinct raw messages through Account.Sign + crypto.Verify, both cross-checked by the independent verifier, until signatures with a leading-zero r and a leading-zero s have each occurred >= 4 times on the transaction path (hard cap on rounds; fewer = engine error). " +
 			"B: 6 issued prefixes x {zero, ff, 160 single bits set/cleared, single-byte values, 200 digests}; single-character substitutions of 3 addresses per prefix. " +
 			"C: amount alphabet + d*10^k (d<=999, k<=18) with negatives + MinInt64. non-trivial = accepted wallet signatures + rejected mutations + round-tripped addresses and amounts",
 		"exhaustive":                  true,
+		"many_signatures_tx_path":     st.txSigs,
+		"many_signatures_raw_path":    st.rawSigs,
+		"signatures_with_short_r":     map[string]int64{"tx": st.shortR, "raw": st.shortRraw},
+		"signatures_with_short_s":     map[string]int64{"tx": st.shortS, "raw": st.shortSraw},
 		"signing_flows":               c.ct.signFlows,
 		"signing_refused_by_wallet":   c.ct.signRefused,
 		"signed_and_verified":         c.ct.verified,
